@@ -15,7 +15,8 @@ RULE = ("directed enumeration split over the shards: every message length 0..400
         "the md_map macro; HMAC key lengths 0..200 (+255..257, 1000) x 13 message lengths and message lengths 0..300 x 3 key "
         "lengths; KDF2/MGF1 output lengths 0..8*digest+1 and input lengths 0..140; XMD output lengths 0..8*digest+1, "
         "DST lengths 0..255 and 256/257/300/511/1000, message lengths 0..300, the ell = 255/256 boundary; AES-CBC for key "
-        "sizes 16/24/32 x plaintext lengths 0..64 (+ a few longer) with exact / larger / one-short output capacities, "
+        "sizes 16/24/32 x plaintext lengths 0..64 (+ a few longer) with exact / larger / one-short output capacities and "
+        "in place (out == in, one exact-size block), "
         "decryption of the model's ciphertext, every single-byte corruption (16 positions x 255 values) of the last "
         "ciphertext block judged by the model's unpadding (quick tier: exhaustive for plaintext lengths 0..17 and "
         "those = 0, 1, 15 mod 16, 32 values per position otherwise), targeted changes of the "
@@ -28,6 +29,10 @@ ASSUMPTIONS = ["hashlib's SHA-224/256/384/512 and BLAKE2s and the hmac module ar
                "a DST longer than 255 bytes may be rejected with an error or handled as RFC 9380 5.3.3 prescribes",
                "bc_aes_cbc_dec may insist on an output capacity of the ciphertext length (plaintext length unknown "
                "to the caller beforehand); only a capacity below the plaintext length must be refused",
+               "bc_aes_cbc_enc/dec with out == in (complete aliasing) is a supported call: the library itself decrypts in place "
+               "(cp_ecies_dec) and both pad routines of the unchanged tree consume each input block before overwriting it; the "
+               "aliased buffer is exempt from the 'input unchanged' check (key and IV are still checked); partially "
+               "overlapping buffers are not exercised",
                "md_xmd_* are defined with int length parameters although declared with size_t: lengths >= 2^31 are "
                "not exercised"]
 
@@ -404,6 +409,38 @@ def run(ctx, part):
         case("bc_aes_cbc_dec|k%d|%s|cap-%s" % (kl, ptcls(n), capmode),
              {"key": key.hex(), "iv": iv.hex(), "ct": dsc(ct), "pt_len": n, "capacity": cap, "pattern": pp}, body)
 
+    def aes_inplace_case(fn, kl, n):
+        """out == in: one exact-size block that holds the input and is large enough for the output
+        (the library calls the block cipher this way itself, e.g. cp_ecies_dec); compared with the model as usual"""
+        key, _ = data(kl)
+        iv, _ = data(16)
+        pt, pp = data(n)
+        ct = mdbc.cbc_pkcs7_encrypt(key, iv, pt)
+        cl = len(ct)
+        enc = fn == "bc_aes_cbc_enc"
+        inp, exp = (pt, ct) if enc else (ct, pt)
+
+        def body(k_):
+            B = Bufs()
+            poison = rng.randrange(256)
+            buf = B.put(inp + bytes([poison]) * (cl - len(inp)))          # cl bytes: plaintext + room for the padding / the ciphertext
+            pkey, piv = B.put(key), B.put(iv)
+            ol = B.mem(8, 0)
+            R.wr_sz(ol, cl)
+            res = R.call(fn, buf, ol, buf, len(inp), pkey, kl, piv)
+            rej = res.caught or res.i != OK
+            olen = R.rd_sz(ol)
+            if ctx.check(not rej, k_ + "|unexpected-error", {"rc": res.i, "caught": res.caught, "in_len": len(inp)}):
+                ctx.check(olen == len(exp), k_ + "|out-len", {"got": olen, "exp": len(exp)})
+                got = R.get(buf, min(olen, cl))
+                ctx.check(got == exp, k_ + "|value", {"got": got[:96].hex(), "exp": exp[:96].hex(),
+                                                     "first_diff": next((i for i in range(min(len(got), len(exp))) if got[i] != exp[i]), None)})
+            ctx.check(R.get(pkey, kl) == key and R.get(piv, 16) == iv, k_ + "|input-modified")
+            B.free()
+        blocks = "1-block" if cl == 16 else ("2-blocks" if cl == 32 else "multi-block")
+        case("%s|k%d|%s|cap-inplace|%s" % (fn, kl, ptcls(n), blocks) if n else "%s|k%d|%s|cap-inplace" % (fn, kl, ptcls(n)),
+             {"key": key.hex(), "iv": iv.hex(), "in": dsc(inp), "pt_len": n, "pattern": pp}, body)
+
     def padcls(padded):
         """class of a decrypted, still padded string"""
         pt = mdbc.pkcs7_unpad(padded)
@@ -497,6 +534,9 @@ def run(ctx, part):
                         continue
                     if mine():
                         aes_dec_case(kl, n, cm)
+                for fn in ("bc_aes_cbc_enc", "bc_aes_cbc_dec"):
+                    if mine():
+                        aes_inplace_case(fn, kl, n)
                 if n <= 64 or not quick:
                     if mine():
                         aes_corrupt_last(kl, n)
